@@ -189,13 +189,25 @@ package twig
 //@   loop 2 invariant pendErr == nil || (exists i int :: 0 <= i && i < len(loaderErrors) && wraps(loaderErrors[i], pendErr))
 
 // ---------------------------------------------------------------- render contexts (C01, C06, C18)
+// maps kept in the three map pools are empty (Release empties them before Put; New makes them)
+//@ list poolempty contextMapPool blocksMapPool macrosMapPool
+// A context taken from the pool has arbitrary field values: NewRenderContext/Clone determine every
+// field that is read anywhere.
 //@ func NewRenderContext props: C06 C01
 //@   nilable env engine
 //@   fresh
 //@   ensures !ret.sandboxed && ret.env == env && ret.engine == engine && ret.parent == nil
+//@   ensures[C01] !ret.extending && ret.currentBlock == nil && !ret.inParentCall
+//@   ensures[C01] mapEmpty(ret.blocks) && mapEmpty(ret.parentBlocks) && mapEmpty(ret.macros)
+//@   ensures[C01] ret.context != nil && ret.context != context
+//@   ensures[C01] forall k string :: has(ret.context, k) == (context != nil && has(context, k))
+//@   ensures[C01] forall k string :: context != nil && has(context, k) ==> ret.context[k] == context[k]
 //@ func (*RenderContext).Clone props: C06 C01
 //@   fresh
 //@   ensures ret.sandboxed == ctx.sandboxed && ret.env == ctx.env && ret.engine == ctx.engine && ret.parent == ctx
+//@   ensures[C01] !ret.extending && ret.currentBlock == nil && !ret.inParentCall
+//@   ensures[C01] mapEmpty(ret.context) && mapEmpty(ret.parentBlocks)
+//@   ensures[C01] ret.blocks != nil && ret.blocks != ctx.blocks && ret.macros != nil && ret.macros != ctx.macros
 //@ iface SecurityPolicy.IsFilterAllowed
 //@   assumed
 //@   pure
@@ -245,3 +257,6 @@ package twig
 //   caches whose contents are functions of their keys (attribute cache: C20; interned strings are
 //   equal to their keys) and the debug logger (writes to a log, never into rendered output):
 //@ list global_allow attributeCache globalCache debugger
+// a pooled context either has no maps (Release) or four different ones (New)
+//@ pool renderContextPool
+//@   invariant x.blocks == nil || x.blocks != x.parentBlocks
